@@ -5,8 +5,8 @@ CONSTANTS
   ChkOutcomes <- OkPerm
   MaxCrashes = 1
   MaxRuns = 1
-  Tolerated <- KnownRecoveryAny
-  FnOut = FALSE
+  Tolerated <- KnownRecovery
+  FnOut = TRUE
   Gen = "off"
 INVARIANTS NoClauseViolated InvQuiescentAtRelease InvDurLagsMem
 CHECK_DEADLOCK TRUE
